@@ -195,9 +195,18 @@ static void fiber_event_wake_waiters(fiber_manager_t* manager,
   }
 }
 
-static void fiber_event_wake_sleepers(fiber_manager_t* manager,
-                                      uint64_t trigger_count) {
-  fiber_spinlock_lock(&sleep_spinlock);
+// must be called with sleep_spinlock held. the timer's expirations are read
+// here, under the lock, so that fiber_sleep() never computes a wake time from
+// a timer_trigger_count which is missing expirations that already happened
+static void fiber_event_wake_sleepers_locked(fiber_manager_t* manager,
+                                             uint64_t trigger_count) {
+#if defined(__linux__)
+  uint64_t timer_count = 0;
+  if (fibershim_read(timer_fd, &timer_count, sizeof(timer_count)) ==
+      sizeof(timer_count)) {
+    trigger_count += timer_count;
+  }
+#endif
   timer_trigger_count += trigger_count;
 
   waiter_el_t* to_wake = NULL;
@@ -212,7 +221,12 @@ static void fiber_event_wake_sleepers(fiber_manager_t* manager,
       fiber_manager_schedule(manager, to_schedule);
     } while (to_wake);
   }
+}
 
+static void fiber_event_wake_sleepers(fiber_manager_t* manager,
+                                      uint64_t trigger_count) {
+  fiber_spinlock_lock(&sleep_spinlock);
+  fiber_event_wake_sleepers_locked(manager, trigger_count);
   fiber_spinlock_unlock(&sleep_spinlock);
 }
 
@@ -238,14 +252,7 @@ static int fiber_poll_events_internal(uint32_t seconds, uint32_t useconds) {
   for (i = 0; i < count; ++i) {
     const int the_fd = events[i].data.fd;
     if (the_fd == timer_fd) {
-      uint64_t timer_count = 0;
-      const int ret =
-          fibershim_read(timer_fd, &timer_count, sizeof(timer_count));
-      if (ret != sizeof(timer_count)) {
-        assert(errno == EWOULDBLOCK || errno == EAGAIN);
-        continue;
-      }
-      fiber_event_wake_sleepers(manager, timer_count);
+      fiber_event_wake_sleepers(manager, 0);
     } else {
       fd_wait_info_t* const info = &wait_info[the_fd];
       fiber_spinlock_lock(&info->spinlock);
@@ -402,6 +409,8 @@ int fiber_sleep(uint32_t seconds, uint32_t useconds) {
   waiter_el_t wake_info = {};
 
   fiber_spinlock_lock(&sleep_spinlock);
+  // account for the expirations which nobody has read yet
+  fiber_event_wake_sleepers_locked(fiber_manager_get(), 0);
 
   const uint64_t wake_time = timer_trigger_count + sleep_ms;
   wake_info.wake_time = wake_time;
